@@ -17,7 +17,7 @@ Definition ISIZE_MAX : Z := 9223372036854775807.
 (* ReadError (read.rs) + postscript::Error variants reachable from the modelled code *)
 Inductive err :=
 | OutOfBounds | InvalidArrayLen | NullOffset | InvalidSfnt (v : Z) | InvalidTtc (t : Z)
-| InvalidCollectionIndex (i : Z) | MalformedData | InvalidIndexOffsetSize (s : Z) | ZeroOffsetInIndex.
+| InvalidCollectionIndex (i : Z) | MalformedData | InvalidIndexOffsetSize (s : Z) | ZeroOffsetInIndex | InvalidNumber.
 
 Inductive res (A : Type) := Ok (a : A) | Err (e : err) | Panic.
 Arguments Ok {A} a. Arguments Err {A} e. Arguments Panic {A}.
@@ -527,7 +527,7 @@ Definition err_code (e : err) : list Z :=
   match e with
   | OutOfBounds => [1; 1] | InvalidArrayLen => [1; 2] | NullOffset => [1; 3]
   | InvalidSfnt v => [1; 4; v] | InvalidTtc t => [1; 5; t] | InvalidCollectionIndex i => [1; 6; i]
-  | MalformedData => [1; 9] | InvalidIndexOffsetSize s => [1; 7; s] | ZeroOffsetInIndex => [1; 8]
+  | MalformedData => [1; 9] | InvalidIndexOffsetSize s => [1; 7; s] | ZeroOffsetInIndex => [1; 8] | InvalidNumber => [1; 10]
   end.
 Definition enc {A} (f : A -> list Z) (r : res A) : list Z :=
   match r with Ok a => 0 :: f a | Err e => err_code e | Panic => [3] end.
